@@ -251,7 +251,9 @@ SPELLINGS = [("PUSH1 0x05", 5), ("PUSH1 5", 5), ("PUSH1 0x5", 5), ("PUSH 5", 5),
              ("PUSH1 0x0a", 10), ("PUSH1 0xA", 10), ("PUSH 0A", 10), ("PUSH0", 0), ("PUSH1 0x00", 0), ("PUSH1 0", 0), ("PUSH 0", 0),
              ("PUSH32 0xffffffffffffffffffffffffffffffffffffffffffffffffffffffffffffffff", 2 ** 256 - 1),
              ("PUSH32 115792089237316195423570985008687907853269984665640564039457584007913129639935", 2 ** 256 - 1),
-             ("PUSH20 0x00000000000000000000000000000000000000ff", 255), ("PUSH1 0x99", 0x99), ("PUSH1 99", 99), ("PUSH 99", 0x99)]
+             ("PUSH20 0x00000000000000000000000000000000000000ff", 255), ("PUSH1 0x99", 0x99), ("PUSH1 99", 99), ("PUSH 99", 0x99),
+             ("PUSH1 032", 32), ("PUSH1 007", 7), ("PUSH4 0000001000", 1000), ("PUSH1 00", 0), ("PUSH2 0x0020", 32), ("PUSH 0020", 32),
+             ("PUSH1 010", 10), ("PUSH1 0x010", 16)]
 
 
 class PlainText(NativeCase):
@@ -294,6 +296,15 @@ class PlainText(NativeCase):
                                                   all((i.disasm, i.value, i.jump_type) == (j.disasm, j.value, j.jump_type)
                                                       for i, j in zip(x.instructions, y.instructions)) for x, y in zip(b1, b2))
                 self.ob('parse_plain(to_plain(B))=B', same and t1 == t2, inputs=dict(text=text, push0=p0), info=dict(t1=t1, t2=t2))
+                # the other rendering (AsmBytecode.to_plain: hex operand without prefix), tags included
+                try:
+                    t3 = ' '.join(i.to_plain() for b in b1 for i in b.instructions)
+                    b3 = parser_asm.parse_blocks_from_plain_instructions(t3)
+                    key = lambda i: ('PUSH', 0) if i.disasm == 'PUSH0' else (i.disasm, int(i.value, 16) if i.disasm == 'PUSH' else i.value)     # constants keep their numeric value; PUSH0 = PUSH 0
+                    same3 = [key(i) for b in b1 for i in b.instructions] == [key(i) for b in b3 for i in b.instructions]
+                    self.ob('parse_plain(to_plain(B))=B [to_plain rendering]', same3, inputs=dict(text=text, push0=p0), info=dict(rendering=t3))
+                except BaseException as e:
+                    self.ob('parse_plain(to_plain(B))=B [to_plain rendering]', False, inputs=dict(text=text, push0=p0), info=repr(e))
         constants._set_push0(True)
         self.assumptions = ("bounded: %d constant spellings, %d blocks, 2 flag values" % (len(SPELLINGS), len(blocks)),)
 
